@@ -179,6 +179,11 @@ class Socket(base_socket.BaseSocket):
             self.upgrading = True  # hold packet sends during the upgrade
 
             pkt = websocket_wait()
+            if self.upgraded:
+                # another WebSocket completed the upgrade in the meantime
+                self.server.logger.info(
+                    '%s: Failed websocket upgrade, already upgraded', self.sid)
+                return []
             decoded_pkt = packet.Packet(encoded_packet=pkt)
             if decoded_pkt.packet_type != packet.PING or \
                     decoded_pkt.data != 'probe':
@@ -190,6 +195,10 @@ class Socket(base_socket.BaseSocket):
             self.queue.put(packet.Packet(packet.NOOP))  # end poll
 
             pkt = websocket_wait()
+            if self.upgraded:
+                self.server.logger.info(
+                    '%s: Failed websocket upgrade, already upgraded', self.sid)
+                return []
             decoded_pkt = packet.Packet(encoded_packet=pkt)
             if decoded_pkt.packet_type != packet.UPGRADE:
                 self.upgraded = False
